@@ -4,7 +4,7 @@ not_applicable.json (reasons for the rest). Every property of properties.jsonl i
 either claimed or listed under not_applicable."""
 import json, os
 V = os.path.dirname(os.path.dirname(os.path.abspath(__file__)))
-specs = json.load(open(os.path.join(V, "checks.json")))
+specs = {n[:-5]: json.load(open(os.path.join(V, "checks.d", n))) for n in sorted(os.listdir(os.path.join(V, "checks.d"))) if n.endswith(".json")}
 na = json.load(open(os.path.join(V, "not_applicable.json")))
 props = [json.loads(l) for l in open(os.path.join(V, "properties.jsonl")) if l.strip()]
 checks = []
